@@ -246,6 +246,9 @@ func C06(p *core.Program, r *core.Report) {
 		r.Add("U2", "CloneAndProcessList absolutises with the URL it is given", p.Pos(cl.Pos()), ok && absLinks[p.Original(cl)], "")
 	}
 
+	// ---- U7: ApplyForURL resolves against the supplied URL as parsed (shared with C13-L7)
+	checkApplyForURLParse(p, r, "U7")
+
 	// ---- U3
 	want := map[string][]string{
 		absLinksKey:  {"a", "area", "href", "video", "poster"},
